@@ -778,7 +778,12 @@ class RewriteRuleSet:
                     )
 
                     used_domains: set[str] = {node.domain for node in original_nodes}
-                    parent_opset_imports = graph_or_function.opset_imports
+                    # A subgraph (If/Loop body) has no opset imports of its own: the
+                    # model's imports apply to it.
+                    parent_opset_imports = {
+                        **model.graph.opset_imports,
+                        **graph_or_function.opset_imports,
+                    }
                     used_opset_imports = {
                         k: v for k, v in parent_opset_imports.items() if k in used_domains
                     }
